@@ -736,6 +736,15 @@ fn case_close(kv: &Kv) -> String {
         })
         .collect();
     let r = similar::get_close_matches(w, &cs, n, cutoff);
+    // the [u8] instance of the same call (valid UTF-8: same characters, same ratios, same byte-wise order)
+    {
+        let cb: Vec<&[u8]> = cs.iter().map(|c| c.as_bytes()).collect();
+        let rb = similar::get_close_matches(w.as_bytes(), &cb, n, cutoff);
+        let ra: Vec<&[u8]> = r.iter().map(|x| x.as_bytes()).collect();
+        if ra != rb {
+            panic!("get_close_matches on [u8] differs from str");
+        }
+    }
     // also report each candidate's ratio bits so the oracle can be checked independently
     let ratios: Vec<String> = cs
         .iter()
